@@ -247,7 +247,13 @@ fn draw_metadata(ctx: &mut Ctx, enc_edge: Option<&mut DCfg>) -> StreamMetadata {
     if mask & 1024 != 0 {
         m.encoder = Some(match enc_edge {
             Some(cfg) => draw_edge_string(ctx, "op.arg.encoder", "obs", cfg, "metadata encoder string > 65535"),
-            None => draw_name(ctx, "op.arg.encoder"),
+            None => {
+                if ctx.ch.chance("op.arg.enclong", 1, 4) {
+                    crate::worlds::hostile::long_mixed_string(ctx)
+                } else {
+                    draw_name(ctx, "op.arg.encoder")
+                }
+            }
         });
     }
     m
